@@ -450,4 +450,44 @@ EXTRA = [
       'C09.a|C05.d', 'level database name taken from a request dimension'),
     M('M-C09f-multiapp-two-segments', 'mapproxy/multiapp.py', "        app_name = req.pop_path()\n        if not app_name:\n            return self.index_list(req)",
       "        app_name = req.path.lstrip('/')\n        if not app_name:\n            return self.index_list(req)", 'C09.f'),
+    # ---------------------------------------------------------------- C12
+    M('M-C12a-revert-D3', 'mapproxy/cache/path.py', "return tile_location_tms, level_location_tms", "return tile_location_tms, level_location",
+      'C12.a', 'revert of fix D3'),
+    M('M-C12a-tms-level-drops-dimensions', 'mapproxy/cache/path.py', "return level_location(str(level), cache_dir=cache_dir, dimensions=dimensions)",
+      "return level_location(str(level), cache_dir=cache_dir)", 'C12.a'),
+    M('M-C12a-level-part-format', 'mapproxy/cache/path.py', """    if isinstance(level, str):
+        return level
+    else:
+        return "%02d" % level""", """    if isinstance(level, str):
+        return level
+    else:
+        return "%03d" % level""", 'C12.a'),
+    M('M-C12b-mtime-gt', 'mapproxy/util/fs.py', "if remove_all or os.lstat(filename).st_mtime < before_timestamp:",
+      "if remove_all or os.lstat(filename).st_mtime > before_timestamp:", 'C12.b'),
+    M('M-C12b-stat', 'mapproxy/util/fs.py', "if remove_all or os.lstat(filename).st_mtime < before_timestamp:",
+      "if remove_all or os.stat(filename).st_mtime < before_timestamp:", 'C12.b'),
+    M('M-C12b-and', 'mapproxy/util/fs.py', "if remove_all or os.lstat(filename).st_mtime < before_timestamp:",
+      "if remove_all and os.lstat(filename).st_mtime < before_timestamp:", 'C12.b'),
+    E('E-C12b-swapped-operands', 'mapproxy/util/fs.py', "if remove_all or os.lstat(filename).st_mtime < before_timestamp:",
+      "if remove_all or before_timestamp > os.lstat(filename).st_mtime:", 'swapped operands'),
+    E('E-C12b-le', 'mapproxy/util/fs.py', "if remove_all or os.lstat(filename).st_mtime < before_timestamp:",
+      "if remove_all or os.lstat(filename).st_mtime <= before_timestamp:", 'boundary not fixed by the statement'),
+    M('M-C12c-delete-without-level', 'mapproxy/cache/geopackage.py', '"DELETE FROM [{0}] WHERE (zoom_level = ?)".format(self.table_name), (level,))',
+      '"DELETE FROM [{0}] WHERE (zoom_level <= ?)".format(self.table_name), (level,))', 'C12.c'),
+    M('M-C12c-delete-no-age', 'mapproxy/cache/mbtiles.py', """"DELETE FROM tiles WHERE (zoom_level = ? AND last_modified < datetime(?, 'unixepoch', 'localtime'))",""",
+      """"DELETE FROM tiles WHERE (zoom_level = ? AND last_modified > datetime(?, 'unixepoch', 'localtime'))",""", 'C12.c'),
+    M('M-C12d-simple-without-complete', 'mapproxy/seed/cleanup.py', """        if task.complete_extent:
+            if callable(getattr(task.tile_manager.cache, 'level_location', None)):""", """        if True:
+            if callable(getattr(task.tile_manager.cache, 'level_location', None)):""", 'C12.d'),
+    E('E-C12d-nested-if', 'mapproxy/seed/cleanup.py', """        if task.complete_extent:
+            if callable(getattr(task.tile_manager.cache, 'level_location', None)):""", """        if task.complete_extent and task.levels is not None:
+            if callable(getattr(task.tile_manager.cache, 'level_location', None)):""", 'additional conjunct'),
+    M('M-C12d-walker-not-stale', 'mapproxy/seed/cleanup.py', "tile_walker = TileWalker(task, tile_worker_pool, handle_stale=True, handle_all=handle_all,",
+      "tile_walker = TileWalker(task, tile_worker_pool, handle_stale=False, handle_all=True,", 'C12.d'),
+    M('M-C12d-remove-in-creator', 'mapproxy/cache/tile.py', """                if not source:
+                    return []
+                if source.authorize_stale""", """                if not source:
+                    self.cache.remove_tile(tile)
+                    return []
+                if source.authorize_stale""", 'C12.d|C13.c'),
 ]
